@@ -1,7 +1,8 @@
 (* Model of what the server keeps across a stop and a start, and of the savers' file effects:
      pkg/tindex/inmem.go   saveStateUnsafe (WriteFile(tindex.dat.tmp), then Rename(tindex.dat.tmp -> tindex.dat)), loadState
                            (reads tindex.dat only), checkConsistency (a journal with data and no record: Init fails)
-     pkg/tmindex/cindex.go cindex.dat: written by close() only, read by init(); onWrite/update widen the hull in memory;
+     pkg/tmindex/cindex.go cindex.dat: written by close() only, read and then removed by init() (a crash leaves no snapshot);
+                           onWrite/update widen the hull in memory;
                            syncChunks/lightFill give an unknown chunk the hull (first, last record)
      pkg/pipe/service.go   pipes.dat: written (persister.savePipes: WriteFile(pipes.dat.tmp), Rename over pipes.dat) by
                            CreatePipe / DeletePipe when the definitions changed and by Shutdown(); read by Init (a file
@@ -11,8 +12,9 @@
      server/server.go      Start: Init of every component, on cancel Shutdown of every component, return.
    Definitions only.
 
-   The three behaviours above that were repaired in the code (sync at shutdown, tindex written aside and renamed, pipes
-   saved on change and atomically) are switches of the model ([fixes]); the code is [code_fix] = all on. The earlier
+   The behaviours above that were repaired in the code (sync at shutdown, tindex written aside and renamed, pipes saved
+   on change and atomically, the time-index snapshot consumed at Init, a partition's directory removed before its index
+   record) are switches of the model ([fixes]); the code is [code_fix] = all on. The earlier
    behaviour (tindex: Rename(tindex.dat -> tindex.bak) then WriteFile(tindex.dat) in place; pipes.dat written in place by
    Shutdown only; no sync at shutdown) stays expressible, so that props/C07.v can state what each repair bought.
 
@@ -48,12 +50,14 @@ Record mem := mkMem {
   m_cur : list (nat * nat)                     (* partition -> id of the chunk being written *)
 }.
 
-(* the three repaired behaviours; the code is [code_fix], the code before the repairs [unrepaired] *)
+(* the repaired behaviours; the code is [code_fix], the code before the repairs [unrepaired] *)
 Record fixes := mkFix { fx_sync : bool;       (* partition.Service.Shutdown syncs every journal *)
                         fx_atomic : bool;     (* tindex: write tindex.dat.tmp, then rename over tindex.dat *)
-                        fx_pipes : bool }.    (* pipes.dat saved (atomically) on every create / delete *)
-Definition code_fix : fixes := mkFix true true true.
-Definition unrepaired : fixes := mkFix false false false.
+                        fx_pipes : bool;      (* pipes.dat saved (atomically) on every create / delete *)
+                        fx_snap : bool;       (* cindex.dat is consumed (removed) by Init once it is loaded *)
+                        fx_drop : bool }.     (* deleteJournal removes the directory first, the tag-index record after it *)
+Definition code_fix : fixes := mkFix true true true true true.
+Definition unrepaired : fixes := mkFix false false false false false.
 
 Definition empty_disk : disk := mkDisk None None None None [] O.
 Definition empty_mem : mem := mkMem [] [] [] [] [].
@@ -133,6 +137,22 @@ Definition acked (m : mem) (d : disk) (p : nat) : list Z := events_of p (d_jrnl 
 Fixpoint remove_key {A} (p : nat) (l : list (nat * A)) : list (nat * A) :=
   match l with [] => [] | (q, v) :: tl => if Nat.eqb q p then remove_key p tl else (q, v) :: remove_key p tl end.
 
+(* ---- deleteJournal: the two file-system effects of removing a partition, in order ---- *)
+Inductive deff := DRemoveDir (p : nat) | DSaveIndex (parts : list nat).
+Definition drop_effs (fx : fixes) (p : nat) (parts : list nat) : list deff :=
+  if fx_drop fx then [DRemoveDir p; DSaveIndex parts] else [DSaveIndex parts; DRemoveDir p].
+Definition dapply (fx : fixes) (e : deff) (d : disk) : disk :=
+  match e with
+  | DRemoveDir p => mkDisk (d_tdat d) (d_tbak d) (d_cdat d) (d_pdat d) (remove_key p (d_jrnl d)) (d_next d)
+  | DSaveIndex parts => tsave fx d parts
+  end.
+(* a crash between the effects (a crash inside the index save: [crash_at]) *)
+Inductive dcrash_at (fx : fixes) : disk -> list deff -> disk -> Prop :=
+| dcrash_here : forall d effs, dcrash_at fx d effs d
+| dcrash_later : forall d e effs d', dcrash_at fx (dapply fx e d) effs d' -> dcrash_at fx d (e :: effs) d'.
+Definition drop_data_first (fx : fixes) : bool :=
+  match drop_effs fx O [] with DRemoveDir _ :: _ => true | _ => false end.
+
 (* partition.Service.Write *)
 Definition do_write (fx : fixes) (m : mem) (d : disk) (p : nat) (ts : list Z) : mem * disk :=
   let newp := negb (mem_nat p (m_parts m)) in
@@ -163,13 +183,12 @@ Definition do_step (fx : fixes) (md : mem * disk) (s : step) : mem * disk :=
         (mkMem (m_parts m) (m_buf m) (m_hull m) ps (m_cur m), if fx_pipes fx then save_pipes d ps else d)
       else (m, d)                                (* NotFound: nothing changes, nothing is saved *)
   | SDrop p =>
-      (* TRUNCATE removes every chunk, then deleteJournal: TIndex.Delete (the record goes, the index is saved), the
-         directory is removed; what the chunk writer still buffered goes with it *)
+      (* TRUNCATE removes every chunk, then deleteJournal: the directory is removed and TIndex.Delete takes the record out
+         and saves the index ([drop_effs]: in which order); what the chunk writer still buffered goes with it *)
       if mem_nat p (m_parts m) then
         let parts := filter (fun x => negb (Nat.eqb x p)) (m_parts m) in
-        let d' := tsave fx d parts in
         (mkMem parts (remove_key p (m_buf m)) (m_hull m) (m_pipes m) (remove_key p (m_cur m)),
-         mkDisk (d_tdat d') (d_tbak d') (d_cdat d') (d_pdat d') (remove_key p (d_jrnl d')) (d_next d'))
+         fold_left (fun d e => dapply fx e d) (drop_effs fx p parts) d)
       else (m, d)
   | SDrain s t =>
       (* the worker of a pipe from partition s to partition t has run (a write to s started or woke it) and caught up: it
@@ -193,7 +212,7 @@ Definition killed (m : mem) (d : disk) : disk := d.
 Inductive surgery :=
 | GTRenamed                (* tindex: after Rename, before WriteFile *)
 | GTTorn (k : nat)         (* tindex: inside WriteFile *)
-| GTOrphan (p : nat)       (* partition drop: tindex saved without p, its directory not yet removed *)
+| GTOrphan (p : nat)       (* partition drop, crash between its two effects (which one came first: [fx_drop]) *)
 | GCDrop | GCTorn (k : nat)
 | GCStale                  (* cindex.dat as the previous clean shutdown left it *)
 | GPTorn (k : nat) | GPDrop.
@@ -207,7 +226,9 @@ Definition apply_surgery (fx : fixes) (prev_cdat : option (fcontent snap)) (d : 
                  match d_tdat d with Some _ => set_tindex d None (d_tdat d) | None => d end
   | GTTorn k => if fx_atomic fx then d else
                 match d_tdat d with Some _ => set_tindex d (Some (Torn k)) (d_tdat d) | None => d end
-  | GTOrphan p => match d_tdat d with
+  | GTOrphan p => if fx_drop fx then        (* the directory is gone, the record is still there *)
+                    mkDisk (d_tdat d) (d_tbak d) (d_cdat d) (d_pdat d) (remove_key p (d_jrnl d)) (d_next d)
+                  else match d_tdat d with   (* the record is gone, the directory is still there *)
                   | Some (Whole m) => set_tindex d (Some (Whole (filter (fun x => negb (Nat.eqb x p)) m))) (d_tbak d)
                   | _ => d
                   end
@@ -259,7 +280,8 @@ Definition start (fx : fixes) (d : disk) : option (mem * disk) :=
   | Some parts, Some pipes =>
       (* chunk files nothing was ever flushed to are empty: the journal scan removes them *)
       let j := filter has_data (d_jrnl d) in
-      let d0 := mkDisk (d_tdat d) (d_tbak d) (d_cdat d) (d_pdat d) j (d_next d) in
+      (* the snapshot is consumed: cindex.init removes cindex.dat once the attempt to load it is over *)
+      let d0 := mkDisk (d_tdat d) (d_tbak d) (if fx_snap fx then None else d_cdat d) (d_pdat d) j (d_next d) in
       Some (mkMem parts [] (light_fill j (prune j (cindex_init d))) pipes (map (fun pe => (fst pe, fst (snd pe))) j),
             tsave fx d0 parts)           (* checkConsistency ends with saveStateUnsafe *)
   | _, _ => None
